@@ -1,5 +1,11 @@
 from vlib.core import *
 
+META = dict(
+    level_text="All integer content proved for every state and every library seed form: one step = 16807*s mod (2^31-1) (c19_step), closed state space (c19_closed, c19_orbit*), no signed overflow / wrap in any intermediate (c19_nowrap), seeds never degenerate (c19_seeds*). The theorems are about definitions regenerated from SimpleRandom.h on every run; purity (no global/static/time/address state) is decided structurally by the translator. The floating range [-0.5,0.5] is proved over exact arithmetic only and checked on all states in the thorough tier.",
+    note="Lean kernel + propext/Classical.choice/Quot.sound; translator xlate + clang-14 AST (differential-tested every run against the compiled C++); LP64; IEEE monotone rounding for the float range",
+    technique="Lean 4 proof (omega/induction) on source-translated definitions + differential correspondence",
+    design="§5 C19", harnesses=['c19'])
+
 def run(tier, seed, replay=None):
     R = Run('C19', tier, seed)
     R.trusted = TRUSTED_COMMON + ['IEEE-754: rounding of s/(2^31-1) - 0.5 is monotone, so the real-number range (-1/2,1/2) implies the closed float range [-0.5,0.5] (checked for all states in float and double by the thorough tier, not proved)']
